@@ -395,6 +395,56 @@ def rule_hierarchy_predicate(ck, facts):
             ck.bad(R, key, "%s decides 'same module hierarchy' without constraining the lengths of the two paths (element-wise comparison stops at the shorter one): code in an enclosing module is treated as being inside its nested modules and may read their private members" % f.short, f.where())
 
 
+def _arg_deps(e, out):
+    if isinstance(e, tuple):
+        if len(e) == 2 and e[0] == "arg" and isinstance(e[1], int):
+            out.add(e[1])
+        for x in e:
+            _arg_deps(x, out)
+
+
+def rule_answer_consistency(ck, facts, R="C17.routes"):
+    """a resolved reference is answered as (mangled name, module path): both describe the same definition"""
+    lang = facts.crate(roles.LANG)
+    n = 0
+    for f in lang.fns:
+        if f.kind != "fn" or "::test" in f.path or not ("::ast::program::" in f.path or RESOLVER_MOD in f.path):
+            continue
+        ret = (f.d.get("locals") or [""])[0]
+        if not (ret.startswith("(") and "Symbol" in ret and "Vec<" in ret and ret.count(",") == 1):
+            continue
+        slices = {i for i in range(1, f.d.get("argc", 0) + 1) if "[" in f.d["locals"][i] and "Symbol" in f.d["locals"][i]}
+        if len(slices) < 2:
+            continue
+        sx = SymEx(f, max_paths=64, max_steps=8000, facts=facts)
+        try:
+            paths = sx.run(0)
+        except PathLimit:
+            paths = sx.paths
+        deps = []
+        for p in paths:
+            r0 = p.env.get(0)
+            if p.end != "return" or not (r0 and r0[0] == "agg" and len(r0[2]) == 2):
+                continue
+            dm, dp = set(), set()
+            _arg_deps(r0[2][0], dm)
+            _arg_deps(r0[2][1], dp)
+            deps.append((dm & slices, dp & slices))
+        if not deps:
+            continue
+        n += 1
+        # every optional input the name was built from (the module context of a relative resolution) is also in the
+        # path that is handed back with it
+        bad = [(dm, dp) for dm, dp in deps if dm - dp]
+        key = "answer|%s" % f.short.split("::")[-1]
+        if bad:
+            dm, dp = bad[0]
+            ck.bad(R, key, "%s answers with a mangled name that depends on arguments %s and a module path that depends on arguments %s: the name and the path no longer describe the same definition (the privacy waiver `same module hierarchy` is then decided on a path that is not where the definition lives)" % (f.short, sorted(dm), sorted(dp)), f.where())
+        else:
+            ck.ok(R, key, {"fn": f.short, "return_paths": len(deps)})
+    ck.floor(R, "pair_answers", n, 1)
+
+
 def rule_lexical_first(ck, facts, R="C17.routes"):
     """a name bound in an enclosing lexical scope refers to that binding, whatever the modules export"""
     lang = facts.crate(roles.LANG)
@@ -554,5 +604,6 @@ def run(ck, facts, tier):
     rule_routes(ck, facts)
     rule_scope(ck, facts)
     rule_lexical_first(ck, facts)
+    rule_answer_consistency(ck, facts)
     rule_context_bracket(ck, facts)
     ck.not_decided("that every accepted reference resolves to the unique definition its path denotes, for concrete module trees")
